@@ -325,8 +325,11 @@ static ares_status_t ares_qcache_insert_int(ares_qcache_t           *qcache,
     return ARES_ENOTIMP;
   }
 
-  /* Look at SOA for NXDOMAIN for minimum */
-  if (rcode == ARES_RCODE_NXDOMAIN) {
+  /* Look at SOA for the minimum of a negative answer.  RFC 2308 Section 5
+   * applies to both kinds: NXDOMAIN and NODATA (NOERROR without any answer
+   * record), whose only TTL-bearing record is that SOA. */
+  if (rcode == ARES_RCODE_NXDOMAIN ||
+      ares_dns_record_rr_cnt(qresp, ARES_SECTION_ANSWER) == 0) {
     ttl = ares_qcache_soa_minimum(qresp);
   } else {
     ttl = ares_qcache_calc_minttl(qresp);
